@@ -267,8 +267,8 @@ def seg_step_insts(tier, dirn):
 
 def c02(tier):
     out = []
-    for t in (0, 1, 2, 3):
-        out.append(sdo_xfer_inst(0, t, 2))
+    for t in (0, 1, 2, 3, 4):
+        out.append(sdo_xfer_inst(0, t, 2))     # 4: 2112h, 16 bit direct storage, node-id relative
     maxseg = 3 if tier == 'quick' else 5
     dom = 7 * maxseg
     sizes = [(0, f) for f in (1, 2, 3, 4)] + [(1, 5), (1, 6), (1, 7)] + [(ns, f) for ns in range(2, maxseg + 1) for f in range(1, 8)]
@@ -381,6 +381,12 @@ def c04(tier):
     defs.update({'CO_VERIF_SDO_BUF_SEG': 2})
     out.append(Inst('sdo_lookup', 'sdo_lookup.c', defs, unwind=90, unwindset=node_unwind(2), objbits=10, weight=20,
                     bounds='template dictionary (%s entries), multiplexer 24-bit symbolic, R/W flag bits of every application entry symbolic, request direction symbolic, idle server state arbitrary' % 'about 40'))
+    for sq in ('0', '1', '10', '01'):
+        d3 = dict(NODE_DEFS)
+        d3.update({'CO_VERIF_SDO_BUF_SEG': 2, 'CO_SSDO_N': 2, 'SRVSEQ': '"%s"' % sq})
+        out.append(Inst('sdo_uabort_%s' % sq, 'sdo_uabort.c', d3, unwind=24, unwindset=node_unwind(2), objbits=10, harness_only=['SRVSEQ'], family='sdo_uabort',
+                        extra_types={'UTypeA': ['USize', None, 'URead', 'UWriteA', None], 'UTypeR': ['USize', None, 'URead', 'UWriteR', None]},
+                        bounds='two SDO servers, requests to servers %s: application type supplying a symbolic abort code, then refusals with standard codes' % sq))
     defs2 = dict(defs)
     defs2.update({'CO_SSDO_N': 2})
     out.append(Inst('sdo_lookup_2srv', 'sdo_lookup.c', defs2, unwind=90, unwindset=node_unwind(2), objbits=10, weight=20,
